@@ -339,7 +339,7 @@ def run_shard(spec, res):
         # a few hundred examples with many ties (sizes around 2^8)
         import random as _r
         rr = _r.Random(spec['seed'] * 7 + len(spec['name']))
-        for n in (255, 256, 257, 700):
+        for n in (127, 128, 129, 255, 256, 257, 700):
             vals = tuple(rr.randrange(0, 9) for _ in range(n))
             for reverse in (False, True):
                 check_sort(ld, vals, spec['backing'], spec['upstream'], reverse, res)
@@ -354,7 +354,7 @@ def run_shard(spec, res):
                     check_groupby(ld, vals, spec['backing'], spec['upstream'], idkind, res)
         import random as _r
         rr = _r.Random(spec['seed'] * 11 + len(spec['name']))
-        for n in (256, 257, 700):
+        for n in (128, 129, 256, 257, 700):
             vals = tuple(rr.randrange(0, 5) for _ in range(n))
             for idkind in ('int', 'none-mixed'):
                 check_groupby(ld, vals, spec['backing'], spec['upstream'], idkind, res)
